@@ -1,8 +1,13 @@
 ---------------------------- MODULE Trace_CrossThread ----------------------------
 (* Validates event logs of real multi-threaded add_callback runs against CrossThread.tla.
-   Logged: begin(t, k) (taken just before thread t calls add_callback for its k-th item), run(t, k)
-   (inside the callback, on the loop thread), end.  A log is accepted iff it is an order-preserving merge with
-   every item run once, none before its add_callback call began, and all of them run at the end. *)
+   Logged (one global order): begin(t, k) just before thread t calls add_callback for its k-th
+   item, added(t, k) when the call has returned, run(t, k) inside the callback on the loop thread,
+   end.  The loop's sleeping and waking is not logged: Sleep / WakeUp / Drain are silent steps TLC
+   places.  The harness watchdog logs `stuck` when, after every producer has finished, it finds the
+   loop blocked in select() without timeout, its self-pipe empty and callbacks still unrun - a state
+   that cannot end by itself; the specification has no such state (NoLostWakeup), so a log containing
+   `stuck` is rejected there.  A log is accepted iff it is an order-preserving merge with every item
+   run once, none before its add_callback call began, no lost wake-up, and all of them run at the end. *)
 EXTENDS CrossThread, Json, IOUtils, TLCExt
 Traces == ndJsonDeserialize(IOEnv.TRACE_FILE)
 Verbose == IOEnv.TRACE_VERBOSE = "1"
@@ -15,9 +20,12 @@ TraceInit ==
 IsEvent(a) == l <= Len(Ev) /\ Ev[l].a = a /\ l' = l + 1 /\ UNCHANGED tid
 Bind == Proj' = Ev[l].obs
 TrBegin == IsEvent("begin") /\ Begin(Ev[l].args[1]) /\ begun'[Ev[l].args[1]] = Ev[l].args[2] /\ Bind
+TrAdded == IsEvent("added") /\ Added(Ev[l].args[1]) /\ added'[Ev[l].args[1]] = Ev[l].args[2] /\ Bind
 TrRun   == IsEvent("run") /\ Run(Ev[l].args[1]) /\ ran'[Len(ran')] = <<Ev[l].args[1], Ev[l].args[2]>> /\ Bind
+TrStuck == IsEvent("stuck") /\ Stuck /\ UNCHANGED <<vars, step>>
 TrEnd   == IsEvent("end") /\ AllDone /\ UNCHANGED <<vars, step>>
-TraceNext == TrBegin \/ TrRun \/ TrEnd
+TrSilent == UNCHANGED <<tid, l>> /\ Internal
+TraceNext == TrBegin \/ TrAdded \/ TrRun \/ TrStuck \/ TrEnd \/ TrSilent
 TraceSpec == TraceInit /\ [][TraceNext]_<<vars, step, tid, l>>
 Report == IF Verbose THEN PrintT(<<"AT", Traces[tid].id, l>>)
           ELSE (l = Len(Ev) + 1 => PrintT(<<"ACCEPT", Traces[tid].id>>))
